@@ -131,15 +131,15 @@ func (e *srchEngine) analyzeAllCancel(p *tak.Position, k int) ([][]tak.Move, int
 	return out, v, st
 }
 
-// wire format of a configuration, as read by ocaml/drv_c05.ml: size depth evk nosort nonull noreduce multicut tablelen
+// wire format of a configuration, as read by ocaml/drv_c05.ml: size depth evk nosort nonull noreduce multicut tablelen dedup
 func (e *srchEngine) encCfg() string {
 	sc := e.sc
-	return fmt.Sprintf("%d %d %d %d %d %d %d %d", sc.size, sc.depth, sc.evk, b2i(sc.nosort), b2i(sc.nonull), b2i(sc.noreduce), b2i(sc.multicut), e.tableLen())
+	return fmt.Sprintf("%d %d %d %d %d %d %d %d %d", sc.size, sc.depth, sc.evk, b2i(sc.nosort), b2i(sc.nonull), b2i(sc.noreduce), b2i(sc.multicut), e.tableLen(), b2i(sc.dedup))
 }
 
-// the model has no sort permutation and no symmetry de-duplication, and walks its table as a list
+// the model has no sort permutation and walks its table as a list (symmetry de-duplication is modelled: coq/SearchDedup.v)
 func (e *srchEngine) modelComparable() bool {
-	return e.sc.nosort && !e.sc.dedup && e.tableLen() <= 4096
+	return e.sc.nosort && e.tableLen() <= 4096
 }
 
 func srchL1(r srchResult) string {
